@@ -261,6 +261,13 @@ pub async fn create_archive<R: AsyncRead + Unpin + Send, W: AsyncWrite + Unpin>(
         .await
         .map_err(CreateArchiveError::OutputWriteError)?;
 
+    // Wait for the last write to the temp file to complete and fetch its result.
+    // A seek (rewind) waits too but does not report a failed write.
+    temp_file
+        .flush()
+        .await
+        .map_err(CreateArchiveError::TempFileError)?;
+
     temp_file
         .rewind()
         .await
